@@ -78,6 +78,8 @@ TRcv == /\ IsEvent("rcv")
 TOut == /\ IsEvent("out")
         /\ Expect(Ev.o # "ptmo" \/ (ct > 0 /\ Ev.at - attAt >= ct - 2), "per-try-timeout-fired-early")
         /\ Expect(Ev.o # "gtmo" \/ Ev.at - firstAt >= cg - 2, "global-timeout-fired-early")
+        \* a per-try timeout is the outcome of a PENDING attempt: the timer of an attempt that has ended otherwise is stopped
+        /\ Expect(Ev.o # "ptmo" \/ last = "pending", "per-try-timeout-of-ended-attempt")
         /\ last' = Ev.o
         /\ UNCHANGED <<pol, script, att, rem, st, hosts, reply, nh, cg, ct, attAt, firstAt, applied, act, clock, deadline, gap>>
 
